@@ -62,7 +62,7 @@ def get_token(secret: str, client: str, timeout: Optional[int] = None,
     If timeout is set, token contains time align with twice of this value.
     Twice, because time of creating can be so near to computed time.
     """
-    if timeout is None:
+    if not timeout:
         text = "%s%s" % (secret, client)
     else:
         if expired == 0:
@@ -80,7 +80,7 @@ def check_token(token: str, secret: str, client: str,
     Arguments secret, client and expired must be same, when token was
     generated. If expired is set, than token must be younger than 2*expired.
     """
-    if timeout is None:
+    if not timeout:
         return token == get_token(secret, client)
 
     now = int(time() / timeout) * timeout
